@@ -235,7 +235,18 @@ func c04Reconnect() func() {
 	return func() {
 		sock := fakesock.New("udp")
 		gw := NewGateway(sock, c04Channel)
-		t, err := knx.NewTunnelOnSocket(sock, knxnet.TunnelLayerData, TCfg(100, 350, 1000000))
+		// what ends the first connection: 0 a disconnect request, 1 a heartbeat that gets no answer,
+		// 2 a heartbeat answered with an error status
+		cause := mc.Choose(3, mc.Free)
+		gw.OnConnState = func(req *knxnet.ConnStateReq, s *fakesock.Sent) {
+			switch {
+			case req.Channel != c04Channel || cause == 0:
+				sock.Deliver(&knxnet.ConnStateRes{Channel: req.Channel, Status: 0})
+			case cause == 2:
+				sock.Deliver(&knxnet.ConnStateRes{Channel: req.Channel, Status: knxnet.ErrConnectionID})
+			}
+		}
+		t, err := knx.NewTunnelOnSocket(sock, knxnet.TunnelLayerData, TCfg(100, 350, 400))
 		if err != nil {
 			return
 		}
@@ -265,10 +276,15 @@ func c04Reconnect() func() {
 		if readFirst {
 			read()
 		}
-		// the gateway ends the connection; the client reconnects and gets the next channel
-		mc.Log(Note("disconnect request"))
-		sock.Deliver(&knxnet.DiscReq{Channel: ch})
-		mc.Sleep(10 * ms)
+		// the connection ends; the client reconnects and gets the next channel
+		if cause == 0 {
+			mc.Log(Note("disconnect request"))
+			sock.Deliver(&knxnet.DiscReq{Channel: ch})
+			mc.Sleep(10 * ms)
+		} else {
+			mc.Log(Note("heartbeat fails"))
+			mc.Sleep(400*ms + 350*ms + 10*ms - mc.Now())
+		}
 		ch = c04Channel + 1
 		mc.Log(Note("epoch 2"))
 		inject(0)
